@@ -1484,7 +1484,89 @@ Proof.
     rewrite map_app, M2, EG, EG1 in M1. apply (f_equal (@length mline)) in M1.
     rewrite !app_length, map_length in M1. cbn [tl2 tgroup length] in M1. cbn [length] in M1. lia. }
   rewrite Hgroup, <- Hlen. unfold pos_of. rewrite nth_error_app2, Nat.sub_diag by lia. cbn [nth_error]. rewrite HL3, HL1, HL2.
-  Show.
+
   f_equal. f_equal; unfold zlen, len, comment_tlines; rewrite ?app_length, ?map_length; cbn [length]; lia.
 Qed.
+
+(* --- the corruption operators that act on the first statement line of a top-level item *)
+Definition replace_stmt (k : nat) (c' : list Z) (tl : list pline) : list pline :=
+  firstn k tl ++ match nth_error tl k with Some (PStmt ind _) => [PStmt ind c'] | Some p => [p] | None => [] end ++ skipn (S k) tl.
+Definition insert_stmt (k : nat) (c' : list Z) (tl : list pline) : list pline := firstn k tl ++ PStmt [] c' :: skipn k tl.
+
+Lemma replace_stmt_at a ind c b c' : replace_stmt (length a) c' (a ++ PStmt ind c :: b) = a ++ PStmt ind c' :: b.
+Proof.
+  unfold replace_stmt. rewrite firstn_app, Nat.sub_diag, firstn_all, nth_error_app2, Nat.sub_diag by lia. cbn [firstn nth_error app].
+  rewrite app_nil_r. f_equal. f_equal. replace (S (length a)) with (length (a ++ [PStmt ind c])) by (rewrite app_length; cbn; lia).
+  replace (a ++ PStmt ind c :: b) with ((a ++ [PStmt ind c]) ++ b) by (rewrite <- app_assoc; reflexivity).
+  rewrite skipn_app, Nat.sub_diag, skipn_all. reflexivity.
+Qed.
+Lemma insert_stmt_at a b c' : insert_stmt (length a) c' (a ++ b) = a ++ PStmt [] c' :: b.
+Proof. unfold insert_stmt. rewrite firstn_app, Nat.sub_diag, firstn_all, skipn_app, Nat.sub_diag, skipn_all. cbn [firstn skipn app]. rewrite app_nil_r. reflexivity. Qed.
+
+Lemma tlines_split st ds j it : nth_error ds j = Some it ->
+  tlines T st ds = tlines T st (firstn j ds) ++ item_tlines T st it ++ tlines T st (skipn (S j) ds).
+Proof.
+  revert j. induction ds as [|x ds IH]; intros [|j] H; try discriminate.
+  - inversion H. reflexivity.
+  - cbn [nth_error] in H. cbn [firstn skipn]. unfold tlines in *. cbn [flat_map]. rewrite (IH j H), <- !app_assoc. reflexivity.
+Qed.
+
+Lemma wf_firstn j ds : forallb (wf_item T) ds = true -> wf_adjacent ds = true ->
+  forallb (wf_item T) (firstn j ds) = true /\ wf_adjacent (firstn j ds) = true.
+Proof.
+  revert j. induction ds as [|x ds IH]; intros [|j] H1 H2; try (split; reflexivity).
+  cbn [forallb] in H1. apply andb_true_iff in H1 as [Hx Hds]. cbn [firstn forallb]. rewrite Hx.
+  assert (Hadj' : wf_adjacent ds = true).
+  { destruct x as [d|p|c]; cbn [wf_adjacent] in H2; try exact H2. destruct ds as [|[d'|p'|c'] ds']; try exact H2.
+    apply andb_true_iff in H2 as [_ H]. exact H. }
+  destruct (IH j Hds Hadj') as [I1 I2]. split; [exact I1|].
+  destruct x as [d|p|c]; cbn [wf_adjacent]; try exact I2.
+  destruct ds as [|[d'|p'|c'] ds']; destruct j; cbn [firstn wf_adjacent] in *; try reflexivity; try exact I2.
+  apply andb_true_iff in H2 as [H _]. rewrite H. exact I2.
+Qed.
+
+Lemma wf_nth j ds it : forallb (wf_item T) ds = true -> nth_error ds j = Some it -> wf_item T it = true.
+Proof. intros H Hn. rewrite forallb_forall in H. apply H. eapply nth_error_In. exact Hn. Qed.
+Lemma wf_skipn j ds : forallb (wf_item T) ds = true -> forallb (wf_item T) (skipn j ds) = true.
+Proof. intro H. rewrite forallb_forall in *. intros x Hx. apply H. eapply In_skipn. exact Hx. Qed.
+
+Section BadLines.
+Hypothesis Hmerged' : comment_merged T = false.
+
+(* the statement line of an alias, with something else in place of its type *)
+Definition alias_head (n : string) : list Z := kw_using T ++ [32] ++ of_string n ++ [32; 61; 32].
+Definition int_prefix (i : intty) : list Z := (if it_unsigned i then int_unsigned_prefix T else []) ++ int_kw T.
+
+Lemma alias_bad_width ac n i w : wf_type T n = true -> forallb (fun x => negb (is_prefix x w)) (int_widths T) = true ->
+  parse_top_line T None ac (alias_head n ++ int_prefix i ++ w) = LErr (int_prefix i ++ w).
+Proof.
+  intros Hn Hw. unfold alias_head. rewrite <- !app_assoc. cbn [app].
+  assert (Hnone : first_prefix (int_widths T) w = None).
+  { apply first_prefix_none. intros k Hk. rewrite forallb_forall in Hw. specialize (Hw k Hk). apply negb_true_iff in Hw.
+    unfold is_prefix in Hw. destruct (strip_prefix k w); [discriminate|reflexivity]. }
+  assert (Hint : raw_intty T (int_prefix i ++ w) = None).
+  { unfold raw_intty, int_prefix. destruct (it_unsigned i).
+    - rewrite strip_prefix_app, Hnone. reflexivity.
+    - cbn [app]. rewrite (ok_uprefix T Hok). destruct (kw_shape _ (kwok_int T Hok)) as [k0 [kr [Ek _]]]. pose proof (ok_uchar T Hok) as Huc.
+      rewrite Ek in *. cbn [head_is] in Huc. cbn [app strip_prefix]. rewrite Huc. rewrite <- Ek. rewrite strip_prefix_app, Hnone. reflexivity. }
+  assert (Hhead : exists c, head_is c (int_prefix i ++ w) = true /\ is_lower c = true).
+  { unfold int_prefix. destruct (it_unsigned i).
+    - rewrite (ok_uprefix T Hok). exists (fsi_unsigned_char T). cbn [app head_is]. rewrite Z.eqb_refl. split; [reflexivity|apply (ok_uchar_lower T Hok)].
+    - cbn [app]. apply kw_head. apply (kwok_int T Hok). }
+  destruct Hhead as [c [Hh Hc]].
+  unfold parse_top_line. rewrite Hmerged'. cbn [andb].
+  destruct (kw_head (kw_using T) (32 :: of_string n ++ 32 :: 61 :: 32 :: int_prefix i ++ w) (kwok_using T Hok)) as [c0 [Hh0 Hc0]].
+  rewrite skip_ws_kw by apply (kwok_using T Hok). rewrite (strip_at_lower c0 _ Hh0 Hc0).
+  rewrite (cf_strip (kw_import T) (kw_using T)) by (apply (cf_import_x T Hok); cbn; tauto).
+  rewrite strip_prefix_app. rewrite tok_sp, (tok_type_ok T Hok) by (try exact Hn; reflexivity). cbn [lbind].
+  rewrite expect_sp, expect_lit by reflexivity. cbn [lbind]. rewrite skip_ws_sp.
+  rewrite (skip_ws_head c _ Hh (lower_not_ws c Hc)), Hint. rewrite expect_sp. unfold expect.
+  rewrite (skip_ws_head c _ Hh (lower_not_ws c Hc)).
+  assert (Hbf : strip_prefix (kw_binary_fixed T) (int_prefix i ++ w) = None).
+  { pose proof (ok_cf_alias T Hok) as Hpw. cbn [pw_cf int_heads forallb] in Hpw.
+    apply andb_true_iff in Hpw as [Hf _]. apply andb_true_iff in Hf as [H1 Hf]. apply andb_true_iff in Hf as [H2 _].
+    unfold int_prefix. destruct (it_unsigned i); [rewrite <- app_assoc; apply cf_strip; exact H1|cbn [app]; apply cf_strip; exact H2]. }
+  rewrite Hbf. reflexivity.
+Qed.
+End BadLines.
 End Proofs2.
